@@ -1773,8 +1773,8 @@ func checkC27(r *mon.Run) {
 
 	defer devProfile()()
 	directedFullIDCollision(r)
-	nPath := devLimit(r.Pick(600, 15000))
-	nBeacon := devLimit(r.Pick(500, 12000))
+	nPath := devLimit(r.Pick(450, 12000))
+	nBeacon := devLimit(r.Pick(400, 10000))
 	parallel(nPath, workers(), func(i int) { onePathHistory(r, i, dir) })
 	parallel(nBeacon, workers(), func(i int) { oneBeaconHistory(r, i, dir) })
 
